@@ -16,20 +16,28 @@ from . import core
 from .core import hx, codes, canon, ROOT
 from .p_parser import export, write_cfg, cfg_text
 
-NAMES = {1: ".conf", 2: ".h.conf", 3: "10-a.conf", 4: "9-b.conf", 5: "B.conf", 6: "a.conf", 7: "a.conf.bak", 8: "conf", 9: "\xc3\xa9.conf"}
-CARRY = [2, 3, 4, 5, 6, 9]      # names that carry the suffix .conf
+NAMES = {1: ".conf", 2: ".h.conf", 3: "10-a.conf", 4: "9-b.conf", 5: "B.conf", 6: "a.conf", 7: "a.conf.bak", 8: "conf", 9: "\xc3\xa9.conf",
+         10: "+z.conf", 11: ".-x.conf"}     # (10, 11: sort in front of the directory entries "." resp. "..")
+CARRY = [2, 3, 4, 5, 6, 9, 10, 11]      # names that carry the suffix .conf
+
+
+def idd(l, r):
+    """identity of file (layer, name number) as it appears in keys and values: Layers!Digit (0..9, then a, b)"""
+    return "%d%s" % (l, "%d" % r if r < 10 else chr(87 + r))
 
 
 def body(l, r, shape):
     s = ""
+    r = "%d" % r if r < 10 else chr(87 + r)      # Layers!Digit: 0..9, then a, b
+    l = "%d" % l
     if shape in ("b", "n", "h"):
-        s += "K=%d%d\nU%d%d=1\n" % (l, r, l, r)
+        s += "K=%s%s\nU%s%s=1\n" % (l, r, l, r)
     if shape == "h":
         s += "[S]\n"                     # header-only section
     if shape == "c":
         s += "# nothing is set here\n  # really nothing\n"
     if shape in ("b", "s"):
-        s += "[S]\nK=%d%d\nU%d%d=1\n" % (l, r, l, r)
+        s += "[S]\nK=%s%s\nU%s%s=1\n" % (l, r, l, r)
     return s
 
 
@@ -239,7 +247,7 @@ def f4_expect(rec):
     dshape = rec["shp"][1]
     for sec, on in (("", dshape in "bnh"), ("S", dshape in "bs")):
         if on:
-            m.setdefault((tuple(codes(sec)), tuple(codes("U%d%d" % (l, r)))), (49,))
+            m.setdefault((tuple(codes(sec)), tuple(codes("U" + idd(l, r)))), (49,))
             m.setdefault((tuple(codes(sec)), (75,)), tuple(codes("%d%d" % (l, r))))
     return m
 
@@ -252,7 +260,7 @@ def f4_tree(main, drop, pd=None):
     seq = []
     for l in range(1, len(drop) + 1):
         ns = [n for n in drop[l - 1] if n not in (1, 7, 8)]
-        seq += [(l, n) for n in sorted(ns, key=lambda n: ((pd[l - 1][n - 1] if pd else 1), n))]
+        seq += [(l, n) for n in sorted(ns, key=lambda n: ((pd[l - 1][n - 1] if pd else 1), NAMES[n].encode("latin-1")))]
     return bool(seq) and any(n == seq[0][1] for _, n in seq[1:])
 
 
@@ -384,7 +392,7 @@ def check_c01(exe, tier, seed, verdict):
     samples = [{"tree": tree_text({"main": x["main"], "drop": x["drop"], "shp": x["shp"]}), "expect": x["rc"], "result": show_ents(x["exp"]["ents"])}
                for x in recs[7000:7002]]
     # other content shapes and the whole name pool (names without the suffix, dot file): bounded number of drop-ins
-    r2, recs2, total2 = tree_export(3, [1, 2, 3, 4, 5, 6, 7, 8, 9], 2 if tier == "quick" else 3, shapes)
+    r2, recs2, total2 = tree_export(3, [1, 2, 3, 4, 5, 6, 7, 8, 9, 10, 11], 2 if tier == "quick" else 3, shapes)
     if r2.violated:
         verdict.violation("C01:model", {"tlc": r2.out[-3000:]}, "TLC: Read(tree) differs from UapiRef(tree)\n" + r2.out[-1500:])
     if tier == "quick":
@@ -499,7 +507,7 @@ def replay_nosuffix(exe, recs, verdict):
                 continue
             for sec in ("", "S"):
                 want[(tuple(codes(sec)), (75,))] = tuple(codes("%d%d" % (l, rr)))
-                want[(tuple(codes(sec)), tuple(codes("U%d%d" % (l, rr))))] = (49,)
+                want[(tuple(codes(sec)), tuple(codes("U" + idd(l, rr))))] = (49,)
         exp_rc = "ECONF_SUCCESS" if (hm or any(t["drop"])) else "ECONF_NOFILE"
         got = listing_of_dump(dm)
         if rd["rc"] != exp_rc or (exp_rc == "ECONF_SUCCESS" and as_map(got or []) != want):
@@ -644,7 +652,7 @@ def check_c06(exe, tier, seed, verdict):
         events.append({"e": "begin", "main": t["main"], "drop": t["drop"], "shp": t["shp"], "nlay": len(t["main"]),
                        "faults": [{"f": list(f), "x": ["reject"]} for f in sorted(rej)], "attrs": [],
                        "flags": {"owner": False, "group": False, "nosym": False}, "setters": [],
-                       "pd": x["pd"] if ent in ("config_dirs", "set_conf_dirs") else [[1] * 9 for _ in t["main"]]})
+                       "pd": x["pd"] if ent in ("config_dirs", "set_conf_dirs") else [[1] * len(NAMES) for _ in t["main"]]})
         for c in rd.get("cb", []):
             f = rp.get(norm(c["p"]), (0, 0))
             events.append({"e": "callback", "f": list(f), "verdict": c["v"], "data_ok": c["d"]})
@@ -1340,7 +1348,7 @@ def pd_map(x, shape, R="/"):
 
 
 def pd_rows(x, ent):
-    return x["pd"] if (x.get("pd") and len(Shape(ent, len(x["main"])).layout("/")[2]) >= 2) else [[1] * 9 for _ in x["main"]]
+    return x["pd"] if (x.get("pd") and len(Shape(ent, len(x["main"])).layout("/")[2]) >= 2) else [[1] * len(NAMES) for _ in x["main"]]
 
 
 def with_dangling(x, dangling):
